@@ -324,18 +324,18 @@ fn drop_doc(sc: &Scenario, j: usize) -> Scenario {
         }
     }
     for t in c.thread_ops.iter_mut() {
-        t.retain(|o| !matches!(o, Op::Match(i) if *i == j));
+        t.retain(|o| !matches!(o, Op::Match(i) | Op::MatchPanic(i, _) if *i == j));
         for o in t.iter_mut() {
-            if let Op::Match(i) = o {
+            if let Op::Match(i) | Op::MatchPanic(i, _) = o {
                 if *i > j {
                     *i -= 1;
                 }
             }
         }
     }
-    c.ops.retain(|o| !matches!(o, Op::Match(i) if *i == j));
+    c.ops.retain(|o| !matches!(o, Op::Match(i) | Op::MatchPanic(i, _) if *i == j));
     for o in c.ops.iter_mut() {
-        if let Op::Match(i) = o {
+        if let Op::Match(i) | Op::MatchPanic(i, _) = o {
             if *i > j {
                 *i -= 1;
             }
